@@ -1,6 +1,9 @@
 package main
 
 import (
+	"go/constant"
+	"sort"
+	"strings"
 	"fmt"
 	"os"
 	"go/ast"
@@ -184,4 +187,54 @@ func (fr *Frame) havocPointee(st *State, param string, names []string, c *ssa.Ca
 	ex.store(st, p, pt.Elem(), nv)
 	_ = pre
 	return true
+}
+
+// heapToken: one Int constant per distinct contents of the heap components matching pats ("H.dt.F", "E.uint8",
+// "H.dt.*"). A 'function' contract with a 'reads' clause takes it as an extra argument: two applications
+// agree only when those components are identical terms at both points. Components still at their initial
+// value are left out of the key, so merely reading one does not change the token.
+var heapTokens = map[*Exec]map[string]*Term{}
+
+func (ex *Exec) heapToken(st *State, pats []string) *Term {
+	var names []string
+	for k := range st.heap {
+		for _, p := range pats {
+			if k == p || strings.HasSuffix(p, ".*") && strings.HasPrefix(k, strings.TrimSuffix(p, "*")) {
+				names = append(names, k)
+				break
+			}
+		}
+	}
+	sort.Strings(names)
+	var sb strings.Builder
+	fmt.Fprintf(&sb, "gen%d", st.gen)
+	for _, k := range names {
+		t := st.heap[k]
+		if t.op == "var" && t.name == fmt.Sprintf("%s@%d", k, st.gen) {
+			continue
+		}
+		fmt.Fprintf(&sb, ";%s=%d", k, t.id)
+	}
+	m := heapTokens[ex]
+	if m == nil {
+		m = map[string]*Term{}
+		heapTokens[ex] = m
+	}
+	key := sb.String()
+	if t, ok := m[key]; ok {
+		return t
+	}
+	t := ex.f.Fresh("heapkey", SInt)
+	m[key] = t
+	return t
+}
+
+// firstStringArgIs: the call's first constant string argument equals lit (spaces in the argument match '_')
+func firstStringArgIs(c *ssa.CallCommon, lit string) bool {
+	for _, a := range c.Args {
+		if k, ok := a.(*ssa.Const); ok && k.Value != nil && k.Value.Kind() == constant.String {
+			return strings.ReplaceAll(constant.StringVal(k.Value), " ", "_") == lit
+		}
+	}
+	return false
 }
